@@ -111,5 +111,56 @@ impl Builder {
 //@@ end
 }
 
+// ---------------------------------------------------------------------------------------------------------------
+// the listener side (acceptor/connection.rs): ConnectionAcceptor::negotiate_amqp_with_framed
+//@@ trusted (listener) ListenerConnection is reduced to the wrapped connection's stop-reason cell and the sending end of the queue of incoming sessions; the same ConnectionEngine::open / spawn stand-ins, for an engine around a ListenerConnection
+opaque!(IncomingSession);
+impl Clone for Open { #[verifier::external_body] fn clone(&self) -> (r: Self) { unimplemented!() } }
+pub struct ListenerConnection { pub connection: Connection, pub session_listener: Tx<IncomingSession> }
+pub struct LConnectionEngine { pub connection: ListenerConnection, pub control: Rx<ConnectionControl>, pub outgoing_session_frames: Rx<SessionFrame> }
+shared!(LJoinHandle, LOutcomeRx);
+impl LJoinHandle { pub uninterp spec fn engine_of(&self) -> LConnectionEngine; }
+impl LOutcomeRx { pub uninterp spec fn engine_of(&self) -> LConnectionEngine; }
+impl LConnectionEngine {
+    #[verifier::external_body]
+    pub fn open(transport: TransportS, connection: ListenerConnection, control: Rx<ConnectionControl>, outgoing_session_frames: Rx<SessionFrame>) -> (r: Result<LConnectionEngine, OpenError>)
+        ensures r is Ok ==> r->Ok_0.connection.connection.connection_stop_reason.id() == connection.connection.connection_stop_reason.id() && r->Ok_0.connection.session_listener.id() == connection.session_listener.id()
+            && r->Ok_0.control.id() == control.id() && r->Ok_0.outgoing_session_frames.id() == outgoing_session_frames.id(),
+    { unimplemented!() }
+    pub fn connection_stop_reason(&self) -> (r: &ConnStopArc) ensures *r == self.connection.connection.connection_stop_reason { &self.connection.connection.connection_stop_reason }
+    #[verifier::external_body]
+    pub fn spawn(self) -> (r: (LJoinHandle, LOutcomeRx)) ensures r.0.engine_of() == self, r.1.engine_of() == self { unimplemented!() }
+}
+pub struct ListenerConnectionHandle { pub is_closed: bool, pub control: Tx<ConnectionControl>, pub handle: LJoinHandle, pub outcome: LOutcomeRx, pub outgoing: Tx<SessionFrame>, pub connection_stop_reason: ConnStopArc, pub session_listener: Rx<IncomingSession> }
+pub struct LocalOpen { pub idle_time_out: Option<u32> }
+pub struct ConnectionAcceptor { pub local_open_idle: Option<u32>, pub local_open: Open, pub buffer_size: usize }
+pub mod connection { pub use super::Connection; }
+pub open spec fn wired_l(h: ListenerConnectionHandle) -> bool {
+    let e = h.outcome.engine_of();
+    &&& h.handle.engine_of() == e
+    &&& h.control.id() == e.control.id()                                               // [C12.connection-wiring.handle-controls-this-engine]
+    &&& h.outgoing.id() == e.outgoing_session_frames.id()                              // [C11.connection-wiring.sessions-write-to-this-engine] [C01.connection-wiring.sessions-write-to-this-engine]
+    &&& h.connection_stop_reason.id() == e.connection.connection.connection_stop_reason.id()   // [C14.connection-wiring.handle-reads-the-engines-stop-reason]
+    &&& h.session_listener.id() == e.connection.session_listener.id()                  // [C13.listener-wiring.begins-reach-this-handles-session-acceptor] the sessions the peer begins are offered to the acceptor that holds THIS connection handle
+    &&& !h.is_closed
+}
+impl ConnectionAcceptor {
+//@@ fn file=fe2o3-amqp/src/acceptor/connection.rs impl=`impl<Tls, Sasl> ConnectionAcceptor<Tls, Sasl>` name=negotiate_amqp_with_framed
+//@@ qmark
+//@@ generics
+//@@ nowhere
+//@@ param framed_write : FramedW
+//@@ param framed_read : FramedR
+//@@ ret Result<ListenerConnectionHandle, OpenError>
+//@@ subst `Transport::negotiate_amqp_header(` => `TransportS::negotiate_amqp_header(` rule=R9
+//@@ subst `self .local_open .idle_time_out .map(|millis| Duration::from_millis(millis as u64))` => `idle_duration(self.local_open_idle)` rule=R18
+//@@ subst `ConnectionEngine::open(` => `LConnectionEngine::open(` rule=R7
+//@@ subst `let connection_handle = ConnectionHandle {` => `let connection_handle = ListenerConnectionHandle {` rule=R7
+//@@ spec
+    ensures
+        r is Ok ==> wired_l(r->Ok_0),     // [C12.connection-wiring.handle-controls-this-engine] [C11.connection-wiring.sessions-write-to-this-engine] [C01.connection-wiring.sessions-write-to-this-engine] [C14.connection-wiring.handle-reads-the-engines-stop-reason] [C13.listener-wiring.begins-reach-this-handles-session-acceptor]
+//@@ end
+}
+
 } // verus!
 fn main() {}
